@@ -1,3 +1,257 @@
+"""The box workers of mandoline under contract (C07, C08, C16): blades.slice_box and blades.plate_box.
+
+Unbounded in the box geometry (index range, position in the file, level, refinement factor, physical bounds, plane
+position) and in the stored data; the NUMBER of requested fields is a skeleton parameter (the field loop is unrolled)."""
+import z3
+from pyvc.vals import *  # noqa
 from pyvc.task import Task
-class PlateBox(Task):
-    pass
+from pyvc.vc import veq
+from pyvc.ops import pow2
+from contracts.common import sym_path, sym_fab
+
+BL = "amr_kitchen.mandoline.blades."
+MU = "amr_kitchen.mandoline.utils."
+I, R = z3.IntSort(), z3.RealSort()
+
+
+def expand_contract(ex, args, kw):
+    """contract of utils.expand_array (proved by the task 'expand_array'): out[X, Y] = arr[X // f, Y // f]"""
+    arr, f = args
+    from pyvc.ops import as_ndarray
+    a = as_ndarray(arr)
+    e, _ = a.snapshot()
+    f3 = to_z3(f)
+    ex.ctx.check_or_raise(len(a.shape) == 2, "PreconditionOfExpandArray", "expand_array takes a 2-D array")
+    sh = [ex.ctx.define(to_z3(a.shape[0]) * f3, "ext"), ex.ctx.define(to_z3(a.shape[1]) * f3, "ext")]
+    return NDArray(sh, lambda ix: e((ex.ctx.quot(to_z3(ix[0]), f3)[0], ex.ctx.quot(to_z3(ix[1]), f3)[0])), a.dtype)
+
+
+def close(x, y):
+    d = x - y
+    ad = z3.If(d >= 0, d, -d)
+    ay = z3.If(y >= 0, y, -y)
+    return ad <= to_real(1e-8) + to_real(1e-5) * ay      # the float64 constants numpy uses, as exact rationals
+
+
+class BoxWorker(Task):
+    reach = "U"
+
+    def common(self, ex, nd):
+        ctx = ex.ctx
+        ctx.ghost["ndims"] = nd
+        path, F = sym_path(ctx, "F")
+        off = z3.Int("off")
+        fab = sym_fab(ctx, F, off, nd, canonical=False)
+        L, lv = z3.Ints("L lv")
+        ctx.assume(z3.And(lv >= 0, lv <= L))
+        DX = z3.Function("DX", I, I, R)
+        dx = SymSeq(L + 1, lambda l: [DX(to_z3(l), d) for d in range(nd)])
+        box = [[z3.Real(f"blo{d}"), z3.Real(f"bhi{d}")] for d in range(nd)]
+        # the requested component indices (Mandoline.fidxs): in range of the FAB; optionally a trailing None (grid_level)
+        ks = []
+        for t in range(self.nk):
+            k = z3.Int(f"K{t}")
+            ctx.assume(z3.And(k >= 0, k < fab.nc))
+            ks.append(k)
+        fidxs = list(ks) + ([None] if self.with_none else [])
+        self.contracts = {MU + "expand_array": expand_contract}
+        return dict(path=path, F=F, off=off, fab=fab, L=L, lv=lv, DX=DX, dx=dx, box=box, ks=ks, fidxs=fidxs)
+
+    def expected_plane(self, ctx, g, cx, cy, cn, il, k):
+        """the expanded plane of component k at local normal index il (None: 2-D box)"""
+        fab, f = g["fab"], pow2(g["L"] - g["lv"])
+        sh = [ctx.define(to_z3(fab.shape[cx]) * f, "ext"), ctx.define(to_z3(fab.shape[cy]) * f, "ext")]
+
+        def elem(ix):
+            X, Y = ctx.quot(to_z3(ix[0]), f)[0], ctx.quot(to_z3(ix[1]), f)[0]
+            idx = [None] * fab.nd
+            idx[cx], idx[cy] = X, Y
+            if cn is not None:
+                idx[cn] = il
+            return fab.value(idx, k)
+        return NDArray(sh, elem)
+
+    def check_footprint(self, ctx, g, d, cx, cy, label):
+        fab, f = g["fab"], pow2(g["L"] - g["lv"])
+        ctx.oblige(f"{label}.sx", veq(ctx, d["sx"], [fab.lo[cx] * f, (fab.hi[cx] + 1) * f]), "P")
+        ctx.oblige(f"{label}.sy", veq(ctx, d["sy"], [fab.lo[cy] * f, (fab.hi[cy] + 1) * f]), "P")
+        ctx.oblige(f"{label}.level", veq(ctx, d["level"], g["lv"]), "P")
+
+
+class PlateBox(BoxWorker):
+    """plate_box (2-D plotfiles): for every requested field the whole stored box, F order, replicated by the refinement
+    factor to the finest selected level, with its footprint in finest-level cells; a trailing None in the field list
+    (grid_level) adds no array and is not an error."""
+    qual = BL + "plate_box"
+
+    def __init__(self, prop, nk, with_none=False):
+        self.prop, self.nk, self.with_none = prop, nk, with_none
+        self.name = f"plate_box[fields={nk}{'+None' if with_none else ''}]"
+
+    def setup(self, ex):
+        g = self.common(ex, 2)
+        args = {"Lv": g["lv"], "fidxs": g["fidxs"], "limit_level": g["L"], "indexes": [list(g["fab"].lo), list(g["fab"].hi)],
+                "cfile": g["path"], "offset": g["off"], "box": g["box"], "cx": 0, "cy": 1, "dx": g["dx"]}
+        g["args"] = [args]
+        return g
+
+    def post(self, ex, g, out):
+        ctx = ex.ctx
+        if self.nk == 0 and not self.with_none:
+            return
+        ctx.oblige("raises-nothing", out.kind == "ret", "P", note=str(out.exc) if out.kind != "ret" else "")
+        if out.kind != "ret":
+            return
+        d = out.value
+        ok = isinstance(d, dict) and all(k in d for k in ("sx", "sy", "data", "level"))
+        ctx.oblige("post.result-structure", ok and isinstance(d["data"], list) and len(d["data"]) == self.nk, "P")
+        if not ok or not isinstance(d["data"], list) or len(d["data"]) != self.nk:
+            return
+        self.check_footprint(ctx, g, d, 0, 1, "post")
+        ctx.oblige("post.header-line", "header" in d and veq(ctx, d["header"], g["fab"].line), "P")
+        for t, k in enumerate(g["ks"]):
+            ctx.oblige(f"post.data[{t}]-is-the-stored-box-replicated", veq(ctx, d["data"][t], self.expected_plane(ctx, g, 0, 1, None, None, k)), "P")
+        reads = {str(e[1]) for e in ctx.events if e[0] == "open-r"}
+        ctx.oblige("frame.reads-only-the-box-file", reads <= {"<path:F>"} and not ctx.ghost.get("wfiles"), "P", note=str(reads))
+
+
+class SliceBox(BoxWorker):
+    """slice_box: with g(i) = box_lo + (i + 1/2) dx the cell-centre planes of the box along the normal (n of them),
+       pos > g(n-1)            -> left  = plane n-1, no right plane   (the right one belongs to the next box)
+       pos < g(0)              -> right = plane 0,   no left plane
+       otherwise               -> left = plane il, right = plane ir with either il == ir and pos ~ g(il) (np.isclose), or
+                                  ir == il + 1 and g(il) < pos < g(ir)
+    each plane being, per requested field, the stored samples at that normal index replicated to the finest selected
+    level, with its normal coordinate g(i), footprint and level; plus the FAB header line and the box number."""
+    qual = BL + "slice_box"
+
+    def __init__(self, prop, cn, nk, with_none=False):
+        self.prop, self.cn, self.nk, self.with_none = prop, cn, nk, with_none
+        self.name = f"slice_box[normal={cn},fields={nk}{'+None' if with_none else ''}]"
+
+    def setup(self, ex):
+        ctx = ex.ctx
+        g = self.common(ex, 3)
+        cn = self.cn
+        cx, cy = [d for d in range(3) if d != cn]
+        fab, lv, DX, box = g["fab"], g["lv"], g["DX"], g["box"]
+        pos = z3.Real("pos")
+        n = to_z3(fab.shape[cn])
+        d = DX(lv, cn)
+        # preconditions (from the reader's invariants and compute_mpinput_3d's contract):
+        #   positive cell size; the physical bounds of the box span its n cells; the plane is within half a cell of the box
+        ctx.assume(d > 0)
+        ctx.assume(box[cn][1] - box[cn][0] == to_real(n) * d)
+        ctx.assume(z3.And(box[cn][0] - d / 2 <= pos, pos <= box[cn][1] + d / 2))
+        ctx.ghost["linstep_hints"] = [d]
+        bidx = z3.Int("bidx")
+        args = {"Lv": lv, "pos": pos, "fidxs": g["fidxs"], "limit_level": g["L"], "indexes": [list(fab.lo), list(fab.hi)],
+                "cfile": g["path"], "offset": g["off"], "box": box, "cx": cx, "cy": cy, "cn": cn, "dx": g["dx"], "bidx": bidx}
+        g.update(args=[args], pos=pos, n=n, d=d, cx=cx, cy=cy, bidx=bidx)
+        return g
+
+    def post(self, ex, g, out):
+        ctx = ex.ctx
+        ctx.oblige("raises-nothing", out.kind == "ret", "P", note=str(out.exc) if out.kind != "ret" else "")
+        if out.kind != "ret":
+            return
+        v = out.value
+        ok = isinstance(v, list) and len(v) == 4
+        ctx.oblige("post.result-structure", ok, "P")
+        if not ok:
+            return
+        left, right = v[0], v[1]
+        pos, n, d, box, cn, cx, cy = g["pos"], g["n"], g["d"], g["box"], self.cn, g["cx"], g["cy"]
+        gc = lambda i: box[cn][0] + d / 2 + to_real(i) * d
+        # which planes: the code's choice il / ir is read back from the normal coordinate through ghost indices
+        il, ir = ctx.fresh("il"), ctx.fresh("ir")
+        for side, dct, idx in (("left", left, il), ("right", right, ir)):
+            if dct is None:
+                continue
+            okd = isinstance(dct, dict) and all(k in dct for k in ("sx", "sy", "data", "normal", "level")) and \
+                isinstance(dct["data"], list) and len(dct["data"]) == self.nk
+            ctx.oblige(f"post.{side}.structure", okd, "P")
+            if not okd:
+                return
+        above, below = pos > gc(n - 1), pos < gc(0)
+        ctx.oblige("post.no-left-plane-only-below-the-first-centre", z3.Implies(left is None, below), "P")
+        ctx.oblige("post.no-right-plane-only-above-the-last-centre", z3.Implies(right is None, above), "P")
+        ctx.oblige("post.left-plane-present-when-needed", z3.Implies(z3.Not(below), left is not None), "P")
+        ctx.oblige("post.right-plane-present-when-needed", z3.Implies(z3.Not(above), right is not None), "P")
+        # the plane indices: existentially, through the normal coordinate the plane carries
+        wl = self.plane_index(ctx, g, left, "left") if left is not None else None
+        wr = self.plane_index(ctx, g, right, "right") if right is not None else None
+        if left is not None and wl is None or right is not None and wr is None:
+            return
+        if left is not None and right is None:
+            ctx.oblige("post.left-only.is-the-last-plane", wl == n - 1, "P")
+        if right is not None and left is None:
+            ctx.oblige("post.right-only.is-the-first-plane", wr == 0, "P")
+        if left is not None and right is not None:
+            ctx.oblige("post.bracketing", z3.Or(z3.And(wl == wr, close(pos, gc(wl))),
+                                                z3.And(wr == wl + 1, gc(wl) < pos, pos < gc(wr))), "P")
+        ctx.oblige("post.header-line", veq(ctx, v[2], g["fab"].line), "P")
+        ctx.oblige("post.box-number", veq(ctx, v[3], g["bidx"]), "P")
+        reads = {str(e[1]) for e in ctx.events if e[0] == "open-r"}
+        ctx.oblige("frame.reads-only-the-box-file", reads <= {"<path:F>"} and not ctx.ghost.get("wfiles"), "P", note=str(reads))
+
+    def plane_index(self, ctx, g, dct, side):
+        """the plane handed back on this side: its normal index w is recovered from the witness the executor recorded for the
+        integer index used in arr[...] (data) -- here: w is the index such that normal == g(w); the data must be plane w"""
+        n, d, box, cn, cx, cy = g["n"], g["d"], g["box"], self.cn, g["cx"], g["cy"]
+        gc = lambda i: box[cn][0] + d / 2 + to_real(i) * d
+        w = getattr(dct["normal"], "index_witness", None) if not is_z3(dct["normal"]) else None
+        w = ctx.ghost.get("last_linspace_index", {}).get(id(dct), None) if w is None else w
+        # recover w from the normal value: normal = a + w*step with step == d  =>  search the witness among the executor's
+        # recorded element reads of the linspace array
+        cands = ctx.ghost.get("linspace_reads", [])
+        wit = None
+        for (val, idx) in cands:
+            if val is dct["normal"] or (is_z3(val) and is_z3(dct["normal"]) and val.eq(dct["normal"])):
+                wit = idx
+        if wit is None:
+            ctx.oblige(f"post.{side}.normal-is-a-cell-centre-of-the-box", False, "P", note="normal coordinate is not an element of the grid")
+            return None
+        w = to_z3(wit)
+        ctx.oblige(f"post.{side}.plane-index-in-range", z3.And(w >= 0, w < n), "P")
+        ctx.oblige(f"post.{side}.normal-is-the-cell-centre", to_z3(dct["normal"]) == gc(w), "P")
+        self.check_footprint(ctx, g, dct, cx, cy, f"post.{side}")
+        for t, k in enumerate(g["ks"]):
+            ctx.oblige(f"post.{side}.data[{t}]-is-that-plane-replicated",
+                       veq(ctx, dct["data"][t], self.expected_plane(ctx, g, cx, cy, cn, w, k)), "P")
+        return w
+
+
+def box_tasks(prop, which):
+    out = []
+    if "plate" in which:
+        out += [PlateBox(prop, 1), PlateBox(prop, 2, True), PlateBox(prop, 0, True)]
+    if "slice" in which:
+        out += [SliceBox(prop, 0, 1), SliceBox(prop, 1, 2), SliceBox(prop, 2, 1, True)]
+    return out
+
+
+def tasks(tier):        # for scratch runs
+    return box_tasks("CXX", ["plate", "slice"])
+
+
+def box_canaries(which):
+    f = "amr_kitchen/mandoline/blades.py"
+    cs = []
+    if "slice" in which:
+        # (a wrong plane choice under np.where leaves z3 at "unknown" - quantified context, no model -; such changes
+        # are refuted by the run-time layer; the canary below is one the proof layer refutes)
+        cs += [("slice_box: field skipped by cells instead of bytes",
+                [(f, "                f.seek(byte_size*8*fidx, 1)\n                # Could be optimized by reading contiguous fields\n                # At once especially if all the data is requested\n                # Read the data\n                arr = np.fromfile(f, \"float64\", byte_size)\n                # Fortran order perhaps a legacy of the early AMReX\n                # versions\n                arr = arr.reshape(shape, order=\"F\")\n                data_arrays.append(arr)\n            # If fidx is None (for grid_level) we catch it \n            except TypeError:\n                # level is always added to the output\n                pass\n\n    # Slice indexes",
+                  "                f.seek(byte_size*fidx, 1)\n                # Could be optimized by reading contiguous fields\n                # At once especially if all the data is requested\n                # Read the data\n                arr = np.fromfile(f, \"float64\", byte_size)\n                # Fortran order perhaps a legacy of the early AMReX\n                # versions\n                arr = arr.reshape(shape, order=\"F\")\n                data_arrays.append(arr)\n            # If fidx is None (for grid_level) we catch it \n            except TypeError:\n                # level is always added to the output\n                pass\n\n    # Slice indexes")],
+                ["slice_box[normal=0,fields=1]"])]
+    if "plate" in which:
+        cs += [("plate_box: footprint one finest cell short in y",
+                [(f, "    y_stop = (indexes[1][cy] + 1) * factor\n    shape = (indexes[1][0] - indexes[0][0] + 1,\n             indexes[1][1] - indexes[0][1] + 1,)",
+                  "    y_stop = (indexes[1][cy] + 1) * factor - 1\n    shape = (indexes[1][0] - indexes[0][0] + 1,\n             indexes[1][1] - indexes[0][1] + 1,)")],
+                ["plate_box[fields=1]"])]
+    return cs
+
+
+def canaries(tier):
+    return box_canaries(["slice", "plate"])
